@@ -40,6 +40,7 @@ class SecureGateway(SimGateway):
         self.dev_key = C.device_auth_key(device_password)
         self.sessions: dict[int, Session] = {}     # by tcp conn id
         self.next_sid = 1
+        self.lowest_free_sid = False
         self.bad_dev_mac = False                   # scripted: SessionResponse with a wrong device-authentication MAC
         self.auth_result = ST_AUTH_SUCCESS
         self.auth_results: list[int] = []          # scripted status codes of the next authentications
@@ -101,8 +102,14 @@ class SecureGateway(SimGateway):
             s.client_pub = body[8:40]
             priv, pub = C.keypair_from(self.rng.randbytes(32))
             s.server_pub = pub
-            s.sid = self.next_sid
-            self.next_sid += 1
+            if self.lowest_free_sid:
+                # as real devices do: the lowest session id no open session holds (a closed session's id is handed out again)
+                used = {x.sid for x in self.sessions.values() if x is not s and x.sid and not getattr(x, "closed", False)
+                        and x.conn.open}
+                s.sid = next(i for i in range(1, 0xFFFF) if i not in used)
+            else:
+                s.sid = self.next_sid
+                self.next_sid += 1
             s.key = C.session_key(priv, s.client_pub)
             mac = C.session_response_mac(self.dev_key, s.sid, s.client_pub, s.server_pub)
             if self.bad_dev_mac:
